@@ -108,7 +108,7 @@ func evalPoly(cs []*big.Int, x *big.Int) *big.Int {
 type vec map[int]*big.Int
 
 type point struct {
-	kind string // "nil" | "off" | "val"
+	kind string // "nil" | "val"
 	sig  groupsig.Signature
 	v    vec
 }
@@ -174,17 +174,16 @@ func (p point) coq(b *basis) string {
 	switch p.kind {
 	case "nil":
 		return "PNil"
-	case "off":
-		return "POff"
 	}
 	return "(PVal " + zs(b.eval(p.v)) + ")"
 }
 
 func nilPoint() point { return point{kind: "nil"} }
+// bytes that are not a curve point: Signature.Deserialize leaves the nil signature
 func offPoint() point {
 	bs := make([]byte, 64)
 	bs[31], bs[63] = 1, 1 // (1,1): 1 != 1+3
-	return point{kind: "off", sig: *groupsig.DeserializeSign(bs)}
+	return point{kind: "nil", sig: *groupsig.DeserializeSign(bs)}
 }
 func valPoint(sig groupsig.Signature, v vec) point { return point{kind: "val", sig: sig, v: v} }
 
